@@ -27,6 +27,7 @@ import (
 	"time"
 
 	"github.com/dgraph-io/badger/v4"
+	"github.com/mimiro-io/datahub/internal/verifhook"
 )
 
 type fullSyncLease struct {
@@ -241,6 +242,7 @@ func (ds *Dataset) StoreEntities(entities []*Entity) (Error error) {
 	}
 
 	ds.WriteLock.Lock()
+	verifhook.Point("store.locked")
 	writeLockStart := time.Now()
 	// release lock at end regardless
 	defer func() {
@@ -260,16 +262,19 @@ func (ds *Dataset) StoreEntities(entities []*Entity) (Error error) {
 		return err
 	}
 
+	verifhook.Point("store.before-id-commit")
 	err = ds.store.commitIDTxn()
 	if err != nil {
 		return err
 	}
 
+	verifhook.Point("store.before-data-commit")
 	err = txn.Commit()
 	if err != nil {
 		return err
 	}
 
+	verifhook.Point("store.after-data-commit")
 	err = ds.updateDataset(newitems, entities)
 	if err != nil {
 		return err
